@@ -321,7 +321,17 @@ func (r *runner) peer(st Step) {
 		case "nullres":
 			parts = append(parts, fmt.Sprintf(`{"jsonrpc":"2.0","id":null,"result":%q}`, tag))
 		case "bad":
-			parts = append(parts, fmt.Sprintf(`{"jsonrpc":"1.0","id":%s,"result":%q}`, id, tag))
+			// a malformed member that carries the id and a result (or error) member is that id's reply, however malformed:
+			// a wrong version; or a method name next to the result (reply fields make it a reply - it is not a request
+			// the server makes of us, and the call it answers does not go on waiting)
+			switch (r.nrec + j) % 3 {
+			case 1:
+				parts = append(parts, fmt.Sprintf(`{"jsonrpc":"2.0","id":%s,"method":"sc","result":%q}`, id, tag))
+			case 2:
+				parts = append(parts, fmt.Sprintf(`{"jsonrpc":"2.0","id":%s,"error":{"code":-7,"message":"tag=%s refused"},"method":"sc"}`, id, tag))
+			default:
+				parts = append(parts, fmt.Sprintf(`{"jsonrpc":"1.0","id":%s,"result":%q}`, id, tag))
+			}
 		case "note":
 			parts = append(parts, fmt.Sprintf(`{"jsonrpc":"2.0","method":"sn","params":{"tag":%q}}`, tag))
 		case "call":
